@@ -13,7 +13,10 @@ def format_trashinfo(original_location,  # type: str
 
 
 def format_date(deletion_date):  # type: (datetime.datetime) -> str
-    return deletion_date.strftime("%Y-%m-%dT%H:%M:%S")
+    # not strftime("%Y-..."): glibc does not zero-pad years below 1000
+    return "%04d-%02d-%02dT%02d:%02d:%02d" % (
+        deletion_date.year, deletion_date.month, deletion_date.day,
+        deletion_date.hour, deletion_date.minute, deletion_date.second)
 
 
 def format_original_location(original_location):  # type: (str) -> str
